@@ -20,22 +20,78 @@ import (
 
 // genSharedState writes Gen/SharedState.v: every package-level variable of
 // the packages fit, dyncrc16 and internal/types, and what the code reachable
-// from the six decoding/encoding entry points can do to it:
+// from the six decoding/encoding entry points can do to it.
 //
-//   - direct:  a store whose address is the variable (or an element/field of it)
-//   - through: a store / map update / append / copy / delete through a
-//     reference loaded from the variable
-//   - addr:    the address of the variable (or of an element) leaves the
-//     load/store/field/index instructions (passed, stored, returned, captured)
-//   - typed:   a reference loaded from the variable leaves the function and
-//     reachable code writes memory of a type that the variable owns (e.g. a
-//     method with pointer receiver writing its receiver's fields)
+// Setting.  SSA form (golang.org/x/tools/go/ssa) of the source tree at
+// repoRoot, build tag verif off.  Rapid type analysis (callgraph/rta) with the
+// entry points and the package initialisers as roots; the functions analysed
+// are those reachable over call-graph edges from the entry points alone that
+// belong to the three packages (wrappers and bound-method closures included).
+// Writes made by the package initialisers themselves (before main) are not
+// listed: a table built by a variable initialiser and only read afterwards is
+// read-only.
 //
-// The analysis runs on the SSA form (golang.org/x/tools/go/ssa) of the source
-// tree at repoRoot, without the verif build tag, with reachability computed by
-// rapid type analysis (callgraph/rta) from the entry points and the package
-// initialisers (so that function tables count as address-taken).  Writes made
-// by the package initialisers themselves (before main) are not listed.
+// Rule (version v5): a variable is "written" iff the analysed code contains
+//   direct : a store whose address is the variable or a field/element of it;
+//   through: a store, map update, append, copy, delete or clear whose target
+//            DERIVES from the variable;
+//   escape : a pointer, slice, map, channel (or an interface made from one)
+//            that derives from the variable is passed to, captured by or
+//            returned to code that is not analysed (standard library, a
+//            dynamic call without known callee, the caller of an entry point).
+// "Derives from the variable" is a may-analysis (forward data flow, flow- and
+// context-insensitive, iterated to a fixed point over all analysed functions).
+// The address of the variable derives from it.  So does: a field or element
+// address of something that does; a slice of it; a value loaded through it if
+// the value's type can hold a reference (pointer, slice, map, channel, or a
+// struct/array containing one); a field, element, map value, range element,
+// phi, conversion, type assertion or tuple component of such a value; the
+// result of append to it; an argument it is passed as (the parameter of every
+// callee the call graph gives for the site); a free variable it is captured
+// as; the result of a call whose callee returns one.  Memory is abstracted by
+// (struct type, field), by container type (slice/array/map/channel elements)
+// and by cell type (anything stored or loaded through a plain pointer, locals
+// whose address is taken): once a deriving value has been stored into such a
+// place, every load from a place with the same abstraction derives too.
+//
+// Why function-local memory is not a write (what changed from v4): v4 said a
+// variable may be written as soon as one of its references left the reading
+// function and ANY analysed code stored into memory of a type the variable
+// owns -- including a slice the storing function had made itself.  Now a
+// store counts only if its target derives from the variable.  Memory that a
+// function allocates (make, new, composite literal, append from nil or from
+// such a slice) derives from no variable unless a deriving reference was
+// made its address, so storing INTO it is never a write to a variable; storing
+// a deriving reference into it only makes later loads from it derive.
+// Likewise &v[i] or v[:] is not a write by itself: the pointer derives, and
+// the variable counts as written only if something is stored through it or
+// it reaches code that is not analysed.
+//
+// Soundness argument.  Let P be a pointer into memory owned by variable v that
+// analysed code holds at some point.  P was obtained (a) from v's address or
+// by loading a reference through a deriving address: derives by the load rule;
+// (b) from another value by address arithmetic, slicing, conversion, phi,
+// extraction: derives by propagation; (c) across a call, return, closure
+// capture, channel, or from memory some analysed code stored it into: derives
+// by the parameter/result/free-variable rules and the memory abstraction
+// (which merges all places of one type, so it can only add derivations);
+// (d) from code that is not analysed: then a deriving reference was handed to
+// that code before (escape, already counted as written) -- or that code owns
+// the object, see the assumptions.  A store through P therefore has a deriving
+// target and is reported.
+// Still over-approximated: all places of one (type, field) / container type /
+// cell type are merged; no flow or context sensitivity; append to a deriving
+// slice counts as a write even when it must reallocate; any hand-over of a
+// deriving reference to the standard library counts as a write.
+// Assumptions (under-approximation, listed in the trusted base): package unsafe,
+// reflect-based stores and cgo are not modelled (reflect.ValueOf(p) of a
+// deriving pointer IS an escape); values behind interface-typed cells of a
+// variable (error values, reflect.Type, goinvalid) are not followed
+// (opaque_globals); a struct passed BY VALUE to code that is not analysed is
+// not an escape of the pointers inside it (time.Time's *Location); code that
+// is not analysed does not write through references nested inside the
+// elements of a local container it is given (sort.Slice over a local slice of
+// *field swaps the slice's elements, it does not write the fields).
 //
 // It also lists every range loop over a map in reachable functions, and
 // whether the iteration order is erased before it can reach an output: the
@@ -50,7 +106,7 @@ func init() { extraGens = append(extraGens, genSharedState) }
 var sharedPkgs = []string{"github.com/tormoder/fit", "github.com/tormoder/fit/dyncrc16", "github.com/tormoder/fit/internal/types"}
 var sharedEntries = []string{"Decode", "DecodeChained", "CheckIntegrity", "DecodeHeader", "DecodeHeaderAndFileID", "Encode"}
 
-const sharedGenVersion = "v4"
+const sharedGenVersion = "v5"
 
 func sharedSourceHash() (string, error) {
 	h := sha256.New()
@@ -133,27 +189,6 @@ func shortPkg(path string) string {
 
 func typeStr(t types.Type) string {
 	return types.TypeString(t, func(p *types.Package) string { return shortPkg(p.Path()) })
-}
-
-// refType: can a value of this type be used to write memory it does not contain?
-func refType(t types.Type, seen map[types.Type]bool) bool {
-	if seen[t] {
-		return false
-	}
-	seen[t] = true
-	switch u := t.Underlying().(type) {
-	case *types.Pointer, *types.Slice, *types.Map, *types.Chan, *types.Interface, *types.Signature:
-		return true
-	case *types.Struct:
-		for i := 0; i < u.NumFields(); i++ {
-			if refType(u.Field(i).Type(), seen) {
-				return true
-			}
-		}
-	case *types.Array:
-		return refType(u.Elem(), seen)
-	}
-	return false
 }
 
 // walkOwned collects the types of the memory objects reachable from a
@@ -251,38 +286,6 @@ func rootOf(v ssa.Value, depth int) (rootKind, *ssa.Global) {
 		}
 	}
 	return rootOther, nil
-}
-
-// writtenTypes records the types of the memory a store through addr writes.
-func writtenTypes(addr ssa.Value, into map[string]bool) {
-	v := addr
-	for i := 0; i < 64; i++ {
-		switch x := v.(type) {
-		case *ssa.FieldAddr:
-			if p, ok := x.X.Type().Underlying().(*types.Pointer); ok {
-				into[typeStr(p.Elem())] = true
-			}
-			v = x.X
-			continue
-		case *ssa.IndexAddr:
-			t := x.X.Type()
-			if p, ok := t.Underlying().(*types.Pointer); ok {
-				t = p.Elem()
-			}
-			into[typeStr(t)] = true
-			v = x.X
-			continue
-		}
-		break
-	}
-	switch addr.(type) {
-	case *ssa.FieldAddr, *ssa.IndexAddr:
-		// the enclosing struct / container was recorded
-	default:
-		if p, ok := addr.Type().Underlying().(*types.Pointer); ok {
-			into[typeStr(p.Elem())] = true
-		}
-	}
 }
 
 func analyseSharedState() (*coqFile, error) {
@@ -387,7 +390,6 @@ func analyseSharedState() (*coqFile, error) {
 		return glist[i].name < glist[j].name
 	})
 
-	typeWrites := map[string]bool{} // memory types written through pointers that are neither local nor rooted at a variable
 	fname := func(f *ssa.Function) string {
 		s := f.String()
 		s = strings.ReplaceAll(s, "github.com/tormoder/fit/internal/types", "types")
@@ -395,10 +397,26 @@ func analyseSharedState() (*coqFile, error) {
 		s = strings.ReplaceAll(s, "github.com/tormoder/fit", "fit")
 		return s
 	}
+	// the package a function belongs to; wrappers and bound-method closures
+	// (Pkg == nil) belong to the package of the method they wrap
+	pkgOf := func(f *ssa.Function) *ssa.Package {
+		for g := f; g != nil; g = g.Parent() {
+			if g.Pkg != nil {
+				return g.Pkg
+			}
+			if o := g.Object(); o != nil && o.Pkg() != nil {
+				return prog.Package(o.Pkg())
+			}
+		}
+		return nil
+	}
+	analysable := func(f *ssa.Function) bool {
+		return f != nil && f.Blocks != nil && ours[pkgOf(f)]
+	}
 	nReach := 0
 	var scanned []*ssa.Function
 	for f := range reach {
-		if f.Pkg == nil || !ours[f.Pkg] || f.Blocks == nil {
+		if !analysable(f) {
 			continue
 		}
 		if f.Name() == "init" || strings.HasPrefix(f.Name(), "init#") {
@@ -407,37 +425,313 @@ func analyseSharedState() (*coqFile, error) {
 		scanned = append(scanned, f)
 	}
 	sort.Slice(scanned, func(i, j int) bool { return fname(scanned[i]) < fname(scanned[j]) })
-	store := func(f *ssa.Function, addr ssa.Value) {
-		k, g := rootOf(addr, 0)
-		switch k {
-		case rootGlobal:
-			if gi := globals[g]; gi != nil {
-				gi.direct[fname(f)] = true
+	isScanned := map[*ssa.Function]bool{}
+	for _, f := range scanned {
+		isScanned[f] = true
+	}
+	// call site -> callees (RTA call graph)
+	callees := map[ssa.CallInstruction][]*ssa.Function{}
+	for _, f := range scanned {
+		if n := res.CallGraph.Nodes[f]; n != nil {
+			for _, e := range n.Out {
+				if e.Site != nil && e.Callee.Func != nil {
+					callees[e.Site] = append(callees[e.Site], e.Callee.Func)
+				}
 			}
-		case rootLoaded:
-			if gi := globals[g]; gi != nil {
-				gi.through[fname(f)] = true
-			}
-		case rootOther:
-			writtenTypes(addr, typeWrites)
 		}
 	}
-	escape := func(f *ssa.Function, v ssa.Value) {
-		if v == nil {
-			return
-		}
-		k, g := rootOf(v, 0)
-		gi := globals[g]
-		if gi == nil {
-			return
-		}
-		switch k {
-		case rootGlobal:
-			gi.addr[fname(f)] = true
-		case rootLoaded:
-			if refType(v.Type(), map[types.Type]bool{}) {
-				gi.refEsc[fname(f)] = true
+
+	// ---- taint analysis (see the comment at the top of this file)
+	type label struct {
+		g  *gInfo
+		fn string // the function in which the reference was taken from the variable
+	}
+	type lset map[label]bool
+	changed := false
+	add := func(dst lset, src lset) {
+		for l := range src {
+			if !dst[l] {
+				dst[l] = true
+				changed = true
 			}
+		}
+	}
+	vt := map[ssa.Value]lset{}       // per SSA value (parameters and free variables included)
+	retT := map[*ssa.Function]lset{} // per function result
+	fieldT := map[string]lset{}      // per (struct type, field index)
+	contT := map[string]lset{}       // per slice / array / map / chan type: its elements
+	cellT := map[string]lset{}       // per value type: cells reached through plain pointers
+	at := func(m map[string]lset, k string) lset {
+		if m[k] == nil {
+			m[k] = lset{}
+		}
+		return m[k]
+	}
+	ofV := func(v ssa.Value) lset {
+		if vt[v] == nil {
+			vt[v] = lset{}
+		}
+		return vt[v]
+	}
+	var exposes func(t types.Type, seen map[types.Type]bool) bool
+	exposes = func(t types.Type, seen map[types.Type]bool) bool {
+		if seen[t] {
+			return false
+		}
+		seen[t] = true
+		switch u := t.Underlying().(type) {
+		case *types.Pointer, *types.Slice, *types.Map, *types.Chan:
+			return true
+		case *types.Struct:
+			for i := 0; i < u.NumFields(); i++ {
+				if exposes(u.Field(i).Type(), seen) {
+					return true
+				}
+			}
+		case *types.Array:
+			return exposes(u.Elem(), seen)
+		}
+		return false
+	}
+	exp := func(t types.Type) bool { return exposes(t, map[types.Type]bool{}) }
+	directRef := func(t types.Type) bool {
+		switch t.Underlying().(type) {
+		case *types.Pointer, *types.Slice, *types.Map, *types.Chan, *types.Interface:
+			return true
+		}
+		return false
+	}
+	contKey := func(t types.Type) string {
+		if p, ok := t.Underlying().(*types.Pointer); ok {
+			t = p.Elem() // pointer to array
+		}
+		return typeStr(t)
+	}
+	fieldKey := func(x ssa.Value, i int) string {
+		t := x.Type()
+		if p, ok := t.Underlying().(*types.Pointer); ok {
+			t = p.Elem()
+		}
+		return fmt.Sprintf("%s#%d", typeStr(t), i)
+	}
+	var curFn *ssa.Function
+	get := func(v ssa.Value) lset {
+		if g, ok := v.(*ssa.Global); ok {
+			if gi := globals[g]; gi != nil {
+				return lset{label{gi, fname(curFn)}: true}
+			}
+			return nil
+		}
+		return vt[v]
+	}
+	isGlobalAddr := func(v ssa.Value) bool { k, _ := rootOf(v, 0); return k == rootGlobal }
+	write := func(f *ssa.Function, addr ssa.Value) {
+		for l := range get(addr) {
+			if isGlobalAddr(addr) {
+				l.g.direct[l.fn] = true
+			} else {
+				l.g.through[l.fn] = true
+			}
+		}
+	}
+	// a tainted value is stored into memory: remember it in the abstraction of that memory
+	remember := func(addr ssa.Value, val ssa.Value) {
+		t := get(val)
+		if len(t) == 0 {
+			return
+		}
+		switch x := addr.(type) {
+		case *ssa.FieldAddr:
+			add(at(fieldT, fieldKey(x.X, x.Field)), t)
+		case *ssa.IndexAddr:
+			add(at(contT, contKey(x.X.Type())), t)
+		}
+		add(at(cellT, typeStr(val.Type())), t)
+	}
+	// a tainted reference reaches code that is not analysed
+	unknown := func(f *ssa.Function, v ssa.Value) {
+		if v == nil || !directRef(v.Type()) {
+			return
+		}
+		for l := range get(v) {
+			l.g.addr[l.fn] = true
+		}
+	}
+	transfer := func(f *ssa.Function, ins ssa.Instruction) {
+		switch x := ins.(type) {
+		case *ssa.FieldAddr:
+			add(ofV(x), get(x.X))
+		case *ssa.IndexAddr:
+			add(ofV(x), get(x.X))
+		case *ssa.UnOp:
+			if x.Op == token.MUL {
+				if exp(x.Type()) {
+					add(ofV(x), get(x.X))
+				}
+				switch y := x.X.(type) {
+				case *ssa.FieldAddr:
+					add(ofV(x), fieldT[fieldKey(y.X, y.Field)])
+				case *ssa.IndexAddr:
+					add(ofV(x), contT[contKey(y.X.Type())])
+				}
+				add(ofV(x), cellT[typeStr(x.Type())])
+			} else if x.Op == token.ARROW {
+				add(ofV(x), contT[contKey(x.X.Type())])
+			}
+		case *ssa.Field:
+			if exp(x.Type()) {
+				add(ofV(x), get(x.X))
+			}
+			add(ofV(x), fieldT[fieldKey(x.X, x.Field)])
+		case *ssa.Index:
+			if exp(x.Type()) {
+				add(ofV(x), get(x.X))
+			}
+			add(ofV(x), contT[contKey(x.X.Type())])
+		case *ssa.Lookup:
+			add(ofV(x), get(x.X))
+			add(ofV(x), contT[contKey(x.X.Type())])
+		case *ssa.Slice:
+			add(ofV(x), get(x.X))
+		case *ssa.Phi:
+			for _, e := range x.Edges {
+				add(ofV(x), get(e))
+			}
+		case *ssa.Select:
+			for _, st := range x.States {
+				if st.Dir == types.RecvOnly {
+					add(ofV(x), contT[contKey(st.Chan.Type())])
+				} else if st.Send != nil {
+					add(at(contT, contKey(st.Chan.Type())), get(st.Send))
+				}
+			}
+		case *ssa.ChangeType:
+			add(ofV(x), get(x.X))
+		case *ssa.Convert:
+			add(ofV(x), get(x.X))
+		case *ssa.MultiConvert:
+			add(ofV(x), get(x.X))
+		case *ssa.ChangeInterface:
+			add(ofV(x), get(x.X))
+		case *ssa.SliceToArrayPointer:
+			add(ofV(x), get(x.X))
+		case *ssa.MakeInterface:
+			// an interface made from a copy (struct, basic) exposes nothing of the variable itself
+			if directRef(x.X.Type()) {
+				add(ofV(x), get(x.X))
+			}
+		case *ssa.TypeAssert:
+			add(ofV(x), get(x.X))
+		case *ssa.Extract:
+			add(ofV(x), get(x.Tuple))
+		case *ssa.Range:
+			add(ofV(x), get(x.X))
+			add(ofV(x), contT[contKey(x.X.Type())])
+		case *ssa.Next:
+			add(ofV(x), get(x.Iter))
+		case *ssa.MakeClosure:
+			if fn, ok := x.Fn.(*ssa.Function); ok {
+				for i, bnd := range x.Bindings {
+					if i < len(fn.FreeVars) {
+						add(ofV(fn.FreeVars[i]), get(bnd))
+					}
+					if !isScanned[fn] {
+						unknown(f, bnd)
+					}
+				}
+			}
+		case *ssa.Store:
+			write(f, x.Addr)
+			remember(x.Addr, x.Val)
+		case *ssa.MapUpdate:
+			write(f, x.Map)
+			add(at(contT, contKey(x.Map.Type())), get(x.Key))
+			add(at(contT, contKey(x.Map.Type())), get(x.Value))
+		case *ssa.Send:
+			add(at(contT, contKey(x.Chan.Type())), get(x.X))
+		case *ssa.Return:
+			for _, r := range x.Results {
+				if retT[f] == nil {
+					retT[f] = lset{}
+				}
+				add(retT[f], get(r))
+				// a reference handed to the caller of an entry point
+				for _, e := range entryFns {
+					if e == f {
+						unknown(f, r)
+					}
+				}
+			}
+		}
+		if ci, ok := ins.(ssa.CallInstruction); ok {
+			cc := ci.Common()
+			if bi, ok := cc.Value.(*ssa.Builtin); ok {
+				switch bi.Name() {
+				case "append":
+					write(f, cc.Args[0])
+					if v := ci.Value(); v != nil {
+						add(ofV(v), get(cc.Args[0]))
+					}
+					if len(cc.Args) > 1 {
+						add(at(contT, contKey(cc.Args[0].Type())), get(cc.Args[1]))
+						add(at(contT, contKey(cc.Args[0].Type())), contT[contKey(cc.Args[1].Type())])
+					}
+				case "copy":
+					write(f, cc.Args[0])
+					add(at(contT, contKey(cc.Args[0].Type())), get(cc.Args[1]))
+					add(at(contT, contKey(cc.Args[0].Type())), contT[contKey(cc.Args[1].Type())])
+				case "delete", "clear":
+					write(f, cc.Args[0])
+				}
+				return
+			}
+			targets := callees[ci]
+			if sf := cc.StaticCallee(); sf != nil && len(targets) == 0 {
+				targets = []*ssa.Function{sf}
+			}
+			args := cc.Args
+			if cc.IsInvoke() {
+				args = append([]ssa.Value{cc.Value}, cc.Args...)
+			}
+			anyUnknown := len(targets) == 0
+			for _, callee := range targets {
+				if !isScanned[callee] {
+					anyUnknown = true
+					continue
+				}
+				for i, a := range args {
+					if i < len(callee.Params) {
+						add(ofV(callee.Params[i]), get(a))
+					}
+				}
+				if v := ci.Value(); v != nil {
+					add(ofV(v), retT[callee])
+				}
+			}
+			if anyUnknown {
+				for _, a := range args {
+					unknown(f, a)
+				}
+				if !cc.IsInvoke() {
+					if _, isFn := cc.Value.(*ssa.Function); !isFn {
+						unknown(f, cc.Value)
+					}
+				}
+			}
+		}
+	}
+	for round := 0; round < 200; round++ {
+		changed = false
+		for _, f := range scanned {
+			curFn = f
+			for _, b := range f.Blocks {
+				for _, ins := range b.Instrs {
+					transfer(f, ins)
+				}
+			}
+		}
+		if !changed {
+			break
 		}
 	}
 	for _, f := range scanned {
@@ -451,69 +745,7 @@ func analyseSharedState() (*coqFile, error) {
 					if g, ok := (*op).(*ssa.Global); ok {
 						if gi := globals[g]; gi != nil {
 							gi.used[fname(f)] = true
-						}
-					}
-				}
-				switch x := ins.(type) {
-				case *ssa.Store:
-					store(f, x.Addr)
-					escape(f, x.Val)
-				case *ssa.MapUpdate:
-					k, g := rootOf(x.Map, 0)
-					if gi := globals[g]; gi != nil && (k == rootLoaded || k == rootGlobal) {
-						gi.through[fname(f)] = true
-					} else if k == rootOther {
-						typeWrites[typeStr(x.Map.Type())] = true
-					}
-					escape(f, x.Value)
-					escape(f, x.Key)
-				case ssa.CallInstruction:
-					cc := x.Common()
-					if bi, ok := cc.Value.(*ssa.Builtin); ok {
-						switch bi.Name() {
-						case "append", "copy", "delete", "clear":
-							if len(cc.Args) > 0 {
-								k, g := rootOf(cc.Args[0], 0)
-								if gi := globals[g]; gi != nil && (k == rootLoaded || k == rootGlobal) {
-									gi.through[fname(f)] = true
-								} else if k == rootOther {
-									typeWrites[typeStr(cc.Args[0].Type())] = true
-								}
-							}
-							continue
-						case "len", "cap", "print", "println", "min", "max":
-							continue
-						}
-					}
-					if !cc.IsInvoke() {
-						if _, isFn := cc.Value.(*ssa.Function); !isFn {
-							escape(f, cc.Value)
-						}
-					} else {
-						escape(f, cc.Value)
-					}
-					for _, a := range cc.Args {
-						escape(f, a)
-					}
-				case *ssa.MakeInterface:
-					escape(f, x.X)
-				case *ssa.MakeClosure:
-					for _, bnd := range x.Bindings {
-						escape(f, bnd)
-					}
-				case *ssa.Return:
-					for _, r := range x.Results {
-						escape(f, r)
-					}
-				case *ssa.Send:
-					escape(f, x.X)
-				case *ssa.ChangeInterface:
-					escape(f, x.X)
-				case *ssa.Slice:
-					// slicing an array variable takes its address
-					if k, g := rootOf(x.X, 0); k == rootGlobal {
-						if _, isPtr := x.X.Type().Underlying().(*types.Pointer); isPtr {
-							if gi := globals[g]; gi != nil {
+							if gi.opaque {
 								gi.refEsc[fname(f)] = true
 							}
 						}
@@ -676,17 +908,6 @@ func analyseSharedState() (*coqFile, error) {
 	var detail []string
 	for _, gi := range glist {
 		q := gi.pkg + "." + gi.name
-		typed := false
-		var typedT []string
-		if len(gi.refEsc) > 0 {
-			for t := range gi.owned {
-				if typeWrites[t] {
-					typed = true
-					typedT = append(typedT, t)
-				}
-			}
-			sort.Strings(typedT)
-		}
 		if gi.syncT != "" {
 			syncAll = append(syncAll, q)
 			if len(gi.used) > 0 {
@@ -694,7 +915,7 @@ func analyseSharedState() (*coqFile, error) {
 			}
 			continue
 		}
-		isWritten := len(gi.direct) > 0 || len(gi.through) > 0 || len(gi.addr) > 0 || typed
+		isWritten := len(gi.direct) > 0 || len(gi.through) > 0 || len(gi.addr) > 0
 		if isWritten {
 			written = append(written, q)
 			for _, f := range keys(gi.direct) {
@@ -704,12 +925,7 @@ func analyseSharedState() (*coqFile, error) {
 				detail = append(detail, fmt.Sprintf("(\"%s\", \"through\", \"%s\")", q, f))
 			}
 			for _, f := range keys(gi.addr) {
-				detail = append(detail, fmt.Sprintf("(\"%s\", \"addr\", \"%s\")", q, f))
-			}
-			if typed {
-				for _, f := range keys(gi.refEsc) {
-					detail = append(detail, fmt.Sprintf("(\"%s\", \"typed %s\", \"%s\")", q, strings.Join(typedT, ","), f))
-				}
+				detail = append(detail, fmt.Sprintf("(\"%s\", \"escape\", \"%s\")", q, f))
 			}
 		} else if len(gi.used) > 0 {
 			readOnly = append(readOnly, q)
@@ -718,7 +934,7 @@ func analyseSharedState() (*coqFile, error) {
 			}
 		}
 	}
-	c.p("(* variables that reachable code may write (directly, through a reference, or by letting one escape to code that writes its type) *)\n")
+	c.p("(* variables that reachable code may write: a store to the variable (direct), a store / map update / append / copy / delete\n   through a reference that derives from it (through), or such a reference reaching code that is not analysed (escape);\n   the function named is the one that took the reference from the variable *)\n")
 	c.p("Definition written_globals : list string := %s.\n\n", strList(written))
 	c.p("(* (variable, kind, function) *)\nDefinition written_detail : list (string * string * string) := [\n  %s\n].\n\n", strings.Join(detail, ";\n  "))
 	c.p("(* variables of a sync / sync/atomic type; those mentioned by reachable code *)\n")
